@@ -7,6 +7,7 @@ from hypothesis import strategies as st
 from pv import gen, codec
 from pv import catgen
 from pv.core import Sub, Fail, exc_fail
+from pv.order import ref_cmp
 from pv.ref import base as R
 
 ID = "C10"
@@ -202,7 +203,61 @@ def check(case, ctx):
 
 
 SUBS = [Sub("dedup", check, strategy=case, quick=14000, thorough=200000)]
-KNOWN = {}
+def _known_twins(sub, case, fail):
+    return sub == "seqkeys" and fail.bucket.endswith("-with-twin-between")
+
+
+KNOWN = {"dedup-list-tuple-twins": _known_twins}
+
+# ---- key cells that are unhashable or differ only in container type ([1, 2] vs (1, 2)) ---------------------------------
+@st.composite
+def seq_case(draw, tier):
+    nf = draw(st.sampled_from([1, 2]))
+    hdr = ["k", "a"][:nf]
+    p = draw(st.lists(st.sampled_from([[], (), [1, 2], (1, 2), [[]], [()], ([],), 1, None, "a", [None], (None,)]), min_size=2, max_size=4))
+    tbl = draw(gen.table(hdr, [st.sampled_from(p)] + [st.integers(0, 2)] * (nf - 1), max_rows=6))
+    return {"table": tbl, "key": draw(st.sampled_from([None, "k", ("k",)] if nf == 1 else [None, "k", ("k", "a")])),
+            "buffersize": draw(st.sampled_from([None, 1, 2]))}
+
+
+def check_seq(case, ctx):
+    tbl, key = case["table"], case["key"]
+    hdr = tuple(tbl[0])
+    idx = list(range(len(hdr))) if key is None else R.resolve(hdr, key)
+    rows = [tuple(r) for r in tbl[1:]]
+    keys = [tuple(r[i] for i in idx) for r in rows]           # compared with plain ==, as petl compares them
+    mult = [sum(1 for k2 in keys if k2 == k) for k in keys]
+    dup_exp = [r for r, m in zip(rows, mult) if m > 1]
+    uniq_exp = [r for r, m in zip(rows, mult) if m == 1]
+    classes = []
+    for k in keys:
+        if not any(k == c for c in classes):
+            classes.append(k)
+    ctx.nontrivial(len(rows) >= 2 and any(isinstance(c, (list, tuple)) for k in keys for c in k))
+    kw = {} if case["buffersize"] is None else {"buffersize": case["buffersize"]}
+    try:
+        d = [tuple(r) for r in etl.duplicates(codec.snapshot(tbl), key, **kw)][1:]
+        u = [tuple(r) for r in etl.unique(codec.snapshot(tbl), key, **kw)][1:]
+        di = [tuple(r) for r in etl.distinct(codec.snapshot(tbl), key, **kw)][1:]
+    except Exception as ex:
+        return exc_fail("seqkeys", ex)
+    # known finding dedup-list-tuple-twins: a repeated key is missed when a list/tuple twin of it (tie under the ordering,
+    # not ==) is in the table as well, because the sort may put the twin between the repeats
+    twins = any(m > 1 and any(k2 != k and ref_cmp(k2, k) == 0 for k2 in keys) for k, m in zip(keys, mult))
+    sfx = "-with-twin-between" if twins else ""
+    if not R.same_multiset(d, dup_exp):
+        return Fail("seqkeys/duplicates" + sfx, "duplicates(%r, %r) gave %r, expected %r" % (tbl, key, d, dup_exp))
+    if not R.same_multiset(u, uniq_exp):
+        return Fail("seqkeys/unique" + sfx, "unique(%r, %r) gave %r, expected %r (duplicates %r)" % (tbl, key, u, uniq_exp, d))
+    if len(di) != len(classes):
+        return Fail("seqkeys/distinct" + sfx, "distinct(%r, %r) gave %d rows %r for %d distinct keys" % (tbl, key, len(di), di, len(classes)))
+    return None
+
+
+SUBS.append(Sub("seqkeys", check_seq, strategy=seq_case, quick=1500, thorough=20000))
+RULE += (" Sub 'seqkeys': key cells that are lists / tuples / nested empties ([1, 2] vs (1, 2), [] vs ()), which tie under the ordering "
+         "but are not ==: duplicates / unique partition the rows by == of the key, distinct keeps one row per ==-class (isunique hashes "
+         "its keys and is left out).")
 
 # second use of one view object after its sources were edited (shared sub-check, see pv/reuse.py)
 from pv import reuse  # noqa: E402
